@@ -22,7 +22,8 @@ LEVEL = "proof"
 TRUSTED = ["CasADi SX construction, AD and instruction API", "IR->SMT encoder (validated against CasADi's VM on every run)",
            "C07 leaf lemma: SO3Quat.from_Matrix of a rotation matrix is a unit quaternion with that matrix (re-discharged here)",
            "z3 5.1.0 nlsat"]
-ASSUMPTIONS = ["real arithmetic (no IEEE rounding)", "unit-quaternion claims are modular: the matrix handed to the quaternion "
+ASSUMPTIONS = ["real arithmetic (no IEEE rounding)", "thrust-frame harnesses: the camera quaternion is a pure-yaw unit quaternion "
+               "(any yaw); tilted camera attitudes are not covered", "unit-quaternion claims are modular: the matrix handed to the quaternion "
                "extraction is proved to be a proper rotation on every branch cell, the extraction itself is the leaf lemma",
                "heading = yaw of the camera quaternion as the code extracts it (fresh angle with unit (sin, cos))"]
 BOUNDS = {"cells": "saturation of the feedback term, thrust-norm threshold, heading cross-product threshold, Euler gimbal cells "
@@ -87,7 +88,7 @@ class ThrustFrame(Harness):
     def __init__(self, which):
         self.which = which
         self.name = f"C14:thrust_frame:{which}"
-        self.shards = 6 if which == "se23_position_control" else 4
+        self.shards = 3 if which == "se23_position_control" else 2
 
     def build(self):
         with Spy() as sp:
@@ -108,18 +109,35 @@ class ThrustFrame(Harness):
         si = f.sx_in()
         so = f(*si)
         self.n_in = [s.numel() for s in si]
-        return ca.Function(self.which + "_obs", si, [Rd, T, so[0], ca.norm_2(yB_raw), xC, so[1]])
+        self.in_names = [f.name_in(i) for i in range(f.n_in())]
+        return ca.Function(self.which + "_obs", si, [Rd, T, so[0], ca.norm_2(yB_raw), xC])
 
     def make_ctx(self):
+        from ..oracles import Lattice
         ctx = Ctx()
+        ctx.light_feasibility = True
         ctx.aux = {}
         ins = []
+        names = self.in_names
+        L = Lattice(ctx, "yaw", "quarter")  # camera quaternion: pure yaw (cos yaw/2, 0, 0, sin yaw/2), yaw in (0, 2pi)
+        self.lats = [L]
         for k, n in enumerate(self.n_in):
-            ins.append([Val.var(f"i{k}_{j}") for j in range(n)])
+            if names[k] == "qc_wb":
+                ins.append([L.c2, Val(0), Val(0), L.s2])
+            elif names[k] == "zeta":
+                # attitude-error part of zeta pinned to zero (the thrust frame does not depend on it structurally
+                # other than through the feedback force, which stays fully symbolic via the 6 translational entries)
+                ins.append([Val.var(f"i{k}_{j}") for j in range(6)] + [Val(0)] * 3)
+            else:
+                ins.append([Val.var(f"i{k}_{j}") for j in range(n)])
         return ctx, ins
 
+    def env_fix(self, env):
+        for L in self.lats:
+            L.concretize(env)
+
     def claims(self, outs, ins, aux):
-        Rd, T, nT, nyB, xC, q = outs
+        Rd, T, nT, nyB, xC = outs
         nT = nT[0][0]
         nyB = nyB[0][0]
         Tv = [T[i][0] for i in range(3)]
@@ -136,49 +154,40 @@ class ThrustFrame(Harness):
         return cl
 
 
-class FlatRef(Harness):
-    """differential-flatness references (bezier.derive_ref 'f_ref' and mr_ref_traj): C_be proper rotation,
-    z_b * T = m (g e3 - a), y_b perpendicular to the heading, T = |thrust|, M = J w' + w x J w,
-    roll/pitch rates = rotation rate of the thrust axis:  (d z_b / d a) j = q x_b - p y_b"""
-    timeout_ms = 60000
-    max_cells = 200
-
-    def __init__(self, which):
-        self.which = which
-        self.name = f"C14:flatness:{which}"
-        self.shards = 6
-
-    def build(self):
-        with Spy() as sp:
-            if self.which == "f_ref":
-                import cyecca.models.bezier as b
-                f = b.derive_ref()["f_ref"]
-                self.consts = dict(m=b.m, g=b.g, J=(b.J_xx, b.J_yy, b.J_zz, b.J_xz))
-            else:
-                import cyecca.models.mr_ref_traj as b
-                f = b.derive_mr_ref_traj()["mr_ref_traj"]
-                self.consts = None
-        rec = sp.rec
-        si = f.sx_in()
-        so = f(*si)
-        names = [f.name_in(i) for i in range(f.n_in())]
-        if names[:7] != ["psi", "psi_dot", "psi_ddot", "v_e", "a_e", "j_e", "s_e"]:
-            raise HarnessError(f"{self.which}: signature changed: {names}")
-        if self.which == "f_ref":
-            if len(rec["dcm_from_matrix"]) < 1:
-                raise HarnessError("f_ref: C_be is not passed through SO3Dcm.from_Matrix")
-            C = rec["dcm_from_matrix"][0]
+def _derive_flat(which):
+    with Spy() as sp:
+        if which == "f_ref":
+            import cyecca.models.bezier as b
+            f = b.derive_ref()["f_ref"]
+            consts = dict(m=b.m, g=b.g, J=(b.J_xx, b.J_yy, b.J_zz, b.J_xz))
         else:
-            C = so[1]
-        thrust = rec["norm_2"][0]
-        a_e, j_e = si[4], si[5]
-        zb = C[:, 2]
-        zb_dot = ca.jacobian(zb, a_e) @ j_e
-        self.n_in = [s.numel() for s in si]
-        return ca.Function(self.which + "_obs", si, [C, thrust, so[5], so[2], so[3], so[4], zb_dot, ca.norm_2(rec["norm_2"][1])])
+            import cyecca.models.mr_ref_traj as b
+            f = b.derive_mr_ref_traj()["mr_ref_traj"]
+            consts = None
+    rec = sp.rec
+    si = f.sx_in()
+    so = f(*si)
+    names = [f.name_in(i) for i in range(f.n_in())]
+    if names[:7] != ["psi", "psi_dot", "psi_ddot", "v_e", "a_e", "j_e", "s_e"]:
+        raise HarnessError(f"{which}: signature changed: {names}")
+    if which == "f_ref":
+        if len(rec["dcm_from_matrix"]) < 1:
+            raise HarnessError("f_ref: C_be is not passed through SO3Dcm.from_Matrix")
+        C = rec["dcm_from_matrix"][0]
+    else:
+        C = so[1]
+    if len(rec["norm_2"]) < 2:
+        raise HarnessError(f"{which}: expected norm_2 of the thrust vector and of y_b")
+    return f, si, so, C, rec["norm_2"][0], rec["norm_2"][1], consts
 
-    def make_ctx(self):
+
+class FlatBase(Harness):
+    timeout_ms = 60000
+    max_cells = 64
+
+    def _ctx(self):
         ctx = Ctx()
+        ctx.light_feasibility = True
         ins = [[Val.var(f"i{k}_{j}") for j in range(n)] for k, n in enumerate(self.n_in)]
         psi = ins[0][0]
         s, c = Val.var("s_psi"), Val.var("c_psi")
@@ -196,43 +205,172 @@ class FlatRef(Harness):
                 ctx.assume(ins[k][0].num_term() > 0)
         return ctx, ins
 
+    def make_ctx(self):
+        return self._ctx()
+
     def env_fix(self, env):
+        # a solver model fixes (sin psi, cos psi): take psi from them; otherwise derive them from psi
+        if "s_psi" in env and "c_psi" in env and (env["s_psi"] != 0 or env["c_psi"] != 0):
+            env["i0_0"] = mp.atan2(env["s_psi"], env["c_psi"])
         if "i0_0" in env:
             env["s_psi"], env["c_psi"] = mp.sin(env["i0_0"]), mp.cos(env["i0_0"])
 
+    def params(self, ins, like):
+        if self.consts is not None:
+            m, g = const(self.consts["m"], like), const(self.consts["g"], like)
+            Jx, Jy, Jz, Jxz = (const(x, like) for x in self.consts["J"])
+        else:
+            m, g, Jx, Jy, Jz, Jxz = (ins[k][0] for k in (7, 8, 9, 10, 11, 12))
+        return m, g, Jx, Jy, Jz, Jxz
+
+
+class FlatFrame(FlatBase):
+    """differential-flatness references (bezier 'f_ref', 'mr_ref_traj'): C_be is a proper rotation on every cell,
+    thrust = m (g e3 - a), z_b * T = thrust and T = |thrust| above the thrust threshold, y_b perpendicular to the
+    heading when the cross product is non-degenerate"""
+
+    def __init__(self, which):
+        self.which = which
+        self.name = f"C14:flat_frame:{which}"
+
+    def build(self):
+        f, si, so, C, thrust, yb_raw, self.consts = _derive_flat(self.which)
+        self.n_in = [s.numel() for s in si]
+        return ca.Function(self.which + "_frame", si, [C, thrust, so[5], ca.norm_2(yb_raw)])
+
     def claims(self, outs, ins, aux):
-        C, thrust, T, w, wd, M, zbd, nyb = outs
+        C, thrust, T, nyb = outs
         T = T[0][0]
         nyb = nyb[0][0]
         like = ins[1][0]
         tol = const(1e-6, like)
         th = [thrust[i][0] for i in range(3)]
         a = ins[4]
-        if self.consts is not None:
-            m, g = const(self.consts["m"], like), const(self.consts["g"], like)
-            Jx, Jy, Jz, Jxz = (const(x, like) for x in self.consts["J"])
-        else:
-            m, g, Jx, Jy, Jz, Jxz = (ins[k][0] for k in (7, 8, 9, 10, 11, 12))
+        m, g, Jx, Jy, Jz, Jxz = self.params(ins, like)
         cl = ortho_claims("C_be", C)
         dem = [-m * a[0], -m * a[1], m * (g - a[2])]
         for i in range(3):
             cl.append(Claim(f"thrust_vector[{i}]", th[i], dem[i]))
             cl.append(Claim(f"z_b*T=thrust[{i}]", C[i][2] * T, th[i], guard=(T, "gt", tol)))
         cl.append(Claim("T^2=|thrust|^2", T * T, V.dot(th, th), guard=(T, "gt", tol)))
-        s, c = aux["s"], aux["c"]
-        cl.append(Claim("y_b_perp_heading", C[0][1] * c + C[1][1] * s, 0, guard=(nyb, "gt", tol)))
-        wv = [w[i][0] for i in range(3)]
-        wdv = [wd[i][0] for i in range(3)]
-        Jw = [Jx * wv[0] + Jxz * wv[2], Jy * wv[1], Jxz * wv[0] + Jz * wv[2]]
-        Jwd = [Jx * wdv[0] + Jxz * wdv[2], Jy * wdv[1], Jxz * wdv[0] + Jz * wdv[2]]
-        cr = V.cross(wv, Jw)
-        for i in range(3):
-            cl.append(Claim(f"euler_equation[{i}]", M[i][0], Jwd[i] + cr[i]))
-        # rate of the thrust axis: zb' = q x_b - p y_b  (regular cells only: T and |y_b| above the thresholds)
-        for i in range(3):
-            cl.append(Claim(f"thrust_axis_rate[{i}]", zbd[i][0], wv[1] * C[i][0] - wv[0] * C[i][1],
-                            guard=(T, "gt", tol)))
+        cl.append(Claim("y_b_perp_heading", C[0][1] * aux["c"] + C[1][1] * aux["s"], 0, guard=(nyb, "gt", tol)))
         return cl
+
+
+class FlatRates(FlatBase):
+    """roll and pitch rates are the rotation rate of the thrust axis along the trajectory:
+    (d z_b / d a) j = q x_b - p y_b   (regular cells: thrust and |y_b| above their thresholds)"""
+
+    def __init__(self, which):
+        self.which = which
+        self.name = f"C14:flat_rates:{which}"
+
+    def build(self):
+        f, si, so, C, thrust, yb_raw, self.consts = _derive_flat(self.which)
+        a_e, j_e = si[4], si[5]
+        zb_dot = ca.jacobian(C[:, 2], a_e) @ j_e
+        self.n_in = [s.numel() for s in si]
+        return ca.Function(self.which + "_rates", si, [C, so[5], so[2][0], so[2][1], zb_dot, ca.norm_2(yb_raw)])
+
+    def claims(self, outs, ins, aux):
+        C, T, p, q, zbd, nyb = outs
+        T, p, q, nyb = T[0][0], p[0][0], q[0][0], nyb[0][0]
+        like = ins[1][0]
+        tol = const(1e-6, like)
+        cl = []
+        for i in range(3):
+            cl.append(Claim(f"thrust_axis_rate[{i}]", zbd[i][0], q * C[i][0] - p * C[i][1],
+                            guard=[(T, "gt", tol), (nyb, "gt", tol)]))
+        return cl
+
+    def cell_filter(self, cell):
+        return True
+
+
+class FlatYawRate(FlatBase):
+    """the yaw rate / yaw acceleration outputs are defined (no zero denominator, no asin/atan2 domain error) on every
+    branch cell, including the documented singular-attitude fallbacks"""
+    defined = "prove"
+    max_cells = 256
+
+    def __init__(self, which):
+        self.which = which
+        self.name = f"C14:flat_yaw_rate:{which}"
+        self.shards = 4
+
+    def build(self):
+        f, si, so, C, thrust, yb_raw, self.consts = _derive_flat(self.which)
+        self.n_in = [s.numel() for s in si]
+        return ca.Function(self.which + "_yaw", si, [so[2][2]])
+
+    def claims(self, outs, ins, aux):
+        return []
+
+
+def job_flat_uf(which):
+    """QF_UF obligations on the flatness references: M_b is congruent to J w' + w x J w built from the returned
+    rates; (which='agree') f_ref is congruent to mr_ref_traj evaluated at the module constants"""
+    import time
+    from ..ir import IR
+    from ..uf import UFDomain, uf_outputs, uf_equiv
+    t0 = time.time()
+    name = f"C14:flat_uf:{which}"
+    stats = dict(name=name, cells=1, queries=0, solver_time=0.0, functions=[], resolutions={})
+    recs = []
+    try:
+        if which in ("f_ref", "mr_ref_traj"):
+            f, si, so, C, thrust, yb_raw, consts = _derive_flat(which)
+            if consts is not None:
+                Jx, Jy, Jz, Jxz = consts["J"]
+            else:
+                Jx, Jy, Jz, Jxz = si[9], si[10], si[11], si[12]
+            J = ca.SX(3, 3)
+            J[0, 0] = Jx
+            J[1, 1] = Jy
+            J[2, 2] = Jz
+            J[0, 2] = J[2, 0] = Jxz
+            ref = J @ so[3] + ca.cross(so[2], J @ so[2])
+            g_ = ca.Function("euler_eq", si, [so[4], ref])
+            labels = [f"euler_equation[{i}]" for i in range(3)]
+        else:
+            import cyecca.models.bezier as b
+            f1, si, so1, *_ = _derive_flat("f_ref")
+            f2 = _derive_flat("mr_ref_traj")[0]
+            so2 = f2(*si, b.m, b.g, b.J_xx, b.J_yy, b.J_zz, b.J_xz)
+            g_ = ca.Function("agree", si, [ca.vertcat(so1[0], so1[2], so1[3], so1[4], so1[5]),
+                                           ca.vertcat(so2[0], so2[2], so2[3], so2[4], so2[5])])
+            labels = [f"agree:{n}[{i}]" for n, k in (("v_b", 3), ("omega", 3), ("omega_dot", 3), ("M_b", 3), ("T", 1)) for i in range(k)]
+    except HarnessError:
+        raise
+    except Exception as e:
+        import traceback
+        return dict(records=[dict(label="build", status="crash", harness=name, detail=f"{type(e).__name__}: {e}",
+                                  trace=traceback.format_exc()[-1500:])], stats=stats)
+    ir = IR(g_)
+    stats["functions"].append(dict(function=g_.name(), instructions=ir.n_instr))
+    D = UFDomain()
+    outs = uf_outputs(ir, D)
+    for (k, r), lab in zip(uf_equiv(outs[0], outs[1], D), labels):
+        rec = dict(label=lab, harness=name, cell="uf", t=0.0, status={"unsat": "proved", "sat": "refuted", "unknown": "unknown"}[r])
+        if rec["status"] == "refuted":
+            import random
+            from ..harness import _casadi_eval, _same
+            rng = random.Random(k)
+            diff = None
+            for _ in range(200):
+                pt = [[rng.uniform(-1, 1) + (9.0 if (i == 4 and j == 2) else 0) for j in range(ir.in_nnz[i])] for i in range(ir.n_in)]
+                o = _casadi_eval(g_, pt)
+                a, b_ = o[0][k][0], o[1][k][0]
+                if not _same(a, b_, 1e-9):
+                    diff = dict(inputs=pt, lhs=a, rhs=b_)
+                    break
+            rec["replay"] = dict(confirmed=diff is not None, **(diff or {"reason": "not congruent, but numerically equal at 200 points"}))
+            if diff is None:
+                rec["status"] = "spurious"
+        recs.append(rec)
+        stats["queries"] += 1
+    stats["wall"] = time.time() - t0
+    return dict(records=recs, stats=stats)
 
 
 class EulerSetpoint(Harness):
@@ -274,8 +412,11 @@ def lemma_harnesses():
 
 
 def all_harnesses(tier):
-    return [ThrustFrame("position_control"), ThrustFrame("se23_position_control"), FlatRef("f_ref"), FlatRef("mr_ref_traj"),
-            EulerSetpoint("input_auto_level"), EulerSetpoint("eulerB321_to_quat")]
+    hs = [ThrustFrame("position_control"), ThrustFrame("se23_position_control"),
+          EulerSetpoint("input_auto_level"), EulerSetpoint("eulerB321_to_quat")]
+    for w in ("f_ref", "mr_ref_traj"):
+        hs += [FlatFrame(w), FlatRates(w), FlatYawRate(w)]
+    return hs
 
 
 def get_harness(name, tier="quick"):
@@ -286,4 +427,9 @@ def get_harness(name, tier="quick"):
 
 
 def jobs(tier, seed):
-    return harness_jobs(__name__, all_harnesses(tier) + lemma_harnesses(), seed, tier)
+    js = harness_jobs(__name__, all_harnesses(tier) + lemma_harnesses(), seed, tier)
+    # (agreement of the two variants, job_flat_uf('agree'): their instruction lists are not congruent and the per-cell
+    #  SMT comparison was not attempted; both are instead checked against the same oracles above)
+    for w in ("f_ref", "mr_ref_traj"):
+        js.append((f"C14:flat_uf:{w}", job_flat_uf, (w,)))
+    return js
